@@ -25,7 +25,9 @@ EXTENDS Naturals, Sequences, FiniteSets, TLC, Json, SequencesExt
 CONSTANTS
   Removed,     \* rule ids removed from the tool (mutation); {} for the real garble
   TBValues,    \* GOTRACEBACK settings explored
-  Contexts     \* goroutine contexts explored
+  Contexts,    \* goroutine contexts explored
+  RecAllTB     \* TRUE: the recovered variant under every GOTRACEBACK; FALSE: only with GOTRACEBACK unset
+               \* (a recovered panic never reaches the code that reads the setting)
 
 -----------------------------------------------------------------------------
 (* Strip rules.  how: "empty" = body removed, "retfalse" = body replaced by   *)
@@ -308,7 +310,8 @@ ProgramOut(p) == SelectSeq(p.out, LAMBDA x : x.by = "program")
 (* a case carries the table row of its kind *)
 MkCase(e, x, t, b) == [kind |-> e.k, class |-> e.class, val |-> e.val, rcv |-> e.rcv, exit |-> e.exit,
                        ctx |-> x, tb |-> t, rec |-> b]
-Cases == {MkCase(e, x, t, b) : e \in KindSet, x \in Contexts, t \in TBValues, b \in BOOLEAN}
+Cases == {MkCase(e, x, t, FALSE) : e \in KindSet, x \in Contexts, t \in TBValues}
+         \cup {MkCase(e, x, t, TRUE) : e \in KindSet, x \in Contexts, t \in IF RecAllTB THEN TBValues ELSE {"unset"} \cap TBValues}
 
 (* Deviations that the transcription itself derives (they are checked to be   *)
 (* exactly these, see GapsAreDerived); the harness looks for them on the real *)
